@@ -510,7 +510,10 @@ def rule_unchecked(text, log):
     for m in re.finditer(r'\b(Entity|EntityDirect)\s*::\s*<\s*(\w+)\s*>\s*::\s*from_any_unchecked\s*\(', msk):
         close = rs.match_close(msk, m.end() - 1)
         arg = strip_markers(text[m.end():close]).strip()
-        edits.append((m.start(), 0, '({ proof { assert((%s).aid() == %s::ARCHETYPE_ID); /* R-unchecked */ //~ C03 C14\n } ' % (arg, m.group(2))))
+        # an unchecked conversion lets a handle of ANOTHER archetype resolve here: that is C01 (and C09 for direct handles) as much as C03
+        # (seed C01j was caught under C03 only while this obligation carried `C03 C14`)
+        tags = 'C01 C03 C14' if m.group(1) == 'Entity' else 'C01 C03 C09 C14'
+        edits.append((m.start(), 0, '({ proof { assert((%s).aid() == %s::ARCHETYPE_ID); /* R-unchecked */ //~ %s\n } ' % (arg, m.group(2), tags)))
         edits.append((close + 1, 0, ' })'))
         log.rule('R-unchecked', '%s::<%s>::from_any_unchecked(%s)' % (m.group(1), m.group(2), arg))
     if len(edits) != 2 * n_all:
